@@ -179,7 +179,26 @@ def _keygen(draw, from_top=False):
     return [k, seen]
 
 
-IMPL = {"add": _add, "mul": _mul, "neg": _neg, "on": _on, "distrib": _distrib, "assoc": _assoc,
+def _cli_keygen(draw, from_top, fo):
+    """`bits key -0 fo` with secrets.randbelow scripted as in _keygen"""
+    import cli, cliutil
+    seen = []
+
+    def fake(n):
+        seen.append(n)
+        return n - 1 - draw if from_top else draw
+    out = cliutil.result(cli.run_main(["key", "-0", fo], stubs={"secrets.randbelow": fake}))
+    return [cliutil.fmt_out(out, fo), seen]
+
+
+def _cli_pub(b, compressed, fi, fo):
+    """`bits pubkey [-X] -1 fi -0 fo` with a 32-byte private key on stdin"""
+    import cli, cliutil
+    argv = ["pubkey"] + (["-X"] if compressed else []) + ["-1", fi, "-0", fo]
+    return cliutil.fmt_out(cliutil.result(cli.run_main(argv, stdin=cliutil.fmt_in(b, fi))), fo)
+
+
+IMPL = {"cli_keygen": _cli_keygen, "cli_pub": _cli_pub, "add": _add, "mul": _mul, "neg": _neg, "on": _on, "distrib": _distrib, "assoc": _assoc,
         "privkey_int": _privkey_int, "compute_point": _compute_point, "keygen": _keygen, "pub": _pub}
 
 
@@ -203,9 +222,9 @@ def model_call(c):
         return "c03_privkey_int", [N, a[0]]
     if op == "compute_point":
         return "c03_compute_point", [P, 0, N, (GX, GY), a[0]]
-    if op == "pub":
+    if op in ("pub", "cli_pub"):
         return "c03_pub", [P, 0, N, (GX, GY), a[0], a[1]]
-    if op == "keygen":
+    if op in ("keygen", "cli_keygen"):
         # the correct bound of the random source is n-1: its largest value is n-2
         return "c03_key_of_draw", [(N - 2 - a[0]) if (len(a) > 1 and a[1]) else a[0]]
     raise KeyError(op)
@@ -219,13 +238,25 @@ def canon(c, v):
         if (l is None) != (r is None) or (l is not None and list(l) != list(r)):
             return ["IDENTITY-BROKEN", l, r]
         return l
-    if op == "keygen" and isinstance(v, list) and len(v) == 2 and isinstance(v[1], list):
+    if op in ("keygen", "cli_keygen") and isinstance(v, list) and len(v) == 2 and isinstance(v[1], list):
         return v[0]
     return v
 
 
 def prop_oracle(c):
     op, a = c["op"], c["args"]
+    if op.startswith("cli_"):
+        lib, la = op[4:], a[:2]
+
+        def run(f, args):
+            try:
+                return ("ok", f(*args))
+            except Exception as e:
+                return ("err", type(e).__name__)
+        got, want = run(IMPL[op], a), run(IMPL[lib], la)
+        if got != want and not (got[0] == want[0] == "err"):
+            return "`bits %s` gives %r where bits.keys.%s gives %r" % ("key" if lib == "keygen" else "pubkey", got, lib, want)
+        op, a = lib, la
     if op in ("add", "mul", "neg", "distrib", "assoc"):
         cv = CURVES[a[0]]
     if op == "add":
@@ -389,6 +420,19 @@ def gen_cases(rng, tier):
         out.append(case("keygen-draw", "keygen", d))
     for d in [0, 1, 2]:          # the largest values the source can return, whatever bound the code passes
         out.append(case("keygen-draw-top", "keygen", d, True))
+    # --- `bits key` / `bits pubkey` (32-byte input) = keys.key / keys.pub = the model, in rotating formats
+    fm = ("raw", "hex", "bin")
+    k = 0
+    for d in [0, 1, 2, N - 3, N - 2] + [rng.randrange(0, N - 1) for _ in range(4 if not T else 40)]:
+        out.append(case("cli-keygen-draw", "cli_keygen", d, False, fm[k % 3]))
+        k += 1
+    for d in [0, 1, 2]:
+        out.append(case("cli-keygen-draw-top", "cli_keygen", d, True, fm[k % 3]))
+        k += 1
+    for v in [0, 1, 2, N - 1, N, N + 1, 2 ** 256 - 1, 3 << 200] + [rng.randrange(1, N) for _ in range(3 if not T else 30)]:
+        for comp in (True, False):
+            out.append(case("cli-pub-wrapper", "cli_pub", v.to_bytes(32, "big"), comp, fm[k % 3], fm[(k // 3) % 3]))
+            k += 1
     return out
 
 
